@@ -22,6 +22,7 @@ pub fn def() -> CheckDef {
         cpu_limit_s: 30,
         fault_kinds: "none (space-reuse histories)",
         count_subruns: false,
+        expect_probes: &[],
     }
 }
 
